@@ -1,4 +1,4 @@
-import Logrange.Model.PathSpec
+import Logrange.Model.PathMatchGreedy
 /-!
 Lemmas relating the model of Go's `path.Match` to the specification `PathSpec`, for patterns without the byte `*`
 (one chunk: literals, escapes, `?`, character classes), all names.
@@ -97,7 +97,6 @@ theorem bound_shorter (p : Bytes) (r : Nat) (q : Bytes) (h : bound p = some (r, 
             simp only [List.length_drop, List.length_cons] at hlen ⊢
             omega
 
-def inRanges (rs : List (Nat × Nat)) (ch : Nat) : Bool := rs.any (fun lh => decide (lh.1 ≤ ch) && decide (ch ≤ lh.2))
 
 theorem classLoop_ranges : ∀ (f1 : Nat) (body : Bytes) (f2 : Nat) (r k : Nat) (m0 : Bool),
     body.length < f1 → body.length < f2 →
@@ -236,28 +235,6 @@ theorem pp_cls (pf : Nat) (crest : Bytes) :
       (generalize ranges _ _ _ = R; cases R with | none => rfl | some mr => cases mr; simp [afterRanges])
 
 /-! ## one chunk: `matchChunk` against the item list of the chunk -/
-
-/-- deterministic consumption of a name prefix by star-free items: what is left of the name, or `none` -/
-def consume : List Item → Bytes → Option Bytes
-  | [], s => some s
-  | .star :: _, _ => none
-  | .any :: r, s =>
-    (match s with
-     | [] => none
-     | c :: _ => if c != SL then consume r (s.drop (decodeRune s).2) else none)
-  | .cls neg rs :: r, s =>
-    (match s with
-     | [] => none
-     | _ :: _ => if inRanges rs (decodeRune s).1 != neg then consume r (s.drop (decodeRune s).2) else none)
-  | .lit c :: r, s =>
-    (match s with
-     | [] => none
-     | x :: t => if x == c then consume r t else none)
-
-def hasStar : List Item → Bool
-  | [] => false
-  | .star :: _ => true
-  | _ :: r => hasStar r
 
 theorem matchItems_consume : ∀ (its : List Item) (n : Bytes), hasStar its = false →
     matchItems its n = (consume its n == some [])
